@@ -477,6 +477,11 @@ func (m *ImplCmd) Exec(line string) string {
 	if len(tk) == 0 {
 		return "bad-op"
 	}
+	// a space inside a file or directory name travels as "~s~" in the line protocol (the model
+	// treats names as opaque strings)
+	for i := range tk {
+		tk[i] = strings.ReplaceAll(tk[i], "~s~", " ")
+	}
 	switch tk[0] {
 	case "use":
 		if m.lib.db != nil {
